@@ -82,6 +82,12 @@ class C08(Driver):
                 else:
                     ops.append({"op": "take", "ch": c})
             threads.append({"id": t, "ops": ops, "mode": r.choice(["join", "join", "n", "sup"]) if t else "main"})
+            if t:
+                # the value handed to ev/thread and the value the body returns travel like messages; a supervised
+                # or joined body may also end by raising
+                threads[-1]["arg"] = r.randrange(len(SHAPES))
+                threads[-1]["retv"] = r.randrange(len(SHAPES))
+                threads[-1]["raises"] = threads[-1]["mode"] in ("join", "sup") and r.random() < 0.15
         if balanced:
             # top up with takes/gives so that every channel has as many takes as gives (plans that can run to completion)
             for c in range(nch):
@@ -140,8 +146,10 @@ class C08(Driver):
         A("(defn msg? [v] (and (tuple? v) (= 2 (length v)) (number? (v 0))))")
         for th in plan["threads"]:
             t = th["id"]
-            A("(defn body%d [&]" % t)
+            A("(defn body%d [& args]" % t)
             A("  (sim/ev :tstart %d)" % t)
+            if t:
+                A("  (sim/ev :targ-got %d (show (get args 0)))" % t)
             A("  (def lent @[])")
             A("  (try (do")
             for k, op in enumerate(th["ops"]):
@@ -194,17 +202,24 @@ class C08(Driver):
                 A("  (ev/sleep 0.003) (gccollect)")
                 A("  (each c lent (ev/count c) (when (> (ev/count c) 0) (ev/take c) (sim/ev :echo)) (ev/give c :again) (ev/take c) (ev/capacity c))")
             A("  ) ([e] (sim/ev :terror %d e)))" % t)
-            A("  (sim/ev :tend %d) %d)" % (t, 7000 + t))
+            if th.get("raises"):
+                A("  (sim/ev :tend %d) (error \"raised-by-%d\"))" % (t, t))
+            elif "retv" in th:
+                A("  (let [rv (mk %d %d)] (sim/ev :tret-sent %d (show rv)) (sim/ev :tend %d) rv))" % (th["retv"], 7000 + t, t, t))
+            else:
+                A("  (sim/ev :tend %d) %d)" % (t, 7000 + t))
         for th in plan["threads"]:
             t = th["id"]
             if th["mode"] == "main":
                 A("(ev/go body0)")
             elif th["mode"] == "join":
-                A("(ev/spawn (sim/ev :spawn %d) (let [[ok v] (protect (ev/thread body%d))] (sim/ev :joined %d ok v)))" % (t, t, t))
+                A("(ev/spawn (sim/ev :spawn %d) (let [a (mk %d %d)] (sim/ev :targ-sent %d (show a)) (let [[ok v] (protect (ev/thread body%d a))] (sim/ev :joined %d ok (show v)))))"
+                  % (t, th.get("arg", 0), 8000 + t, t, t, t))
             elif th["mode"] == "n":
-                A("(ev/spawn (sim/ev :spawn %d) (ev/thread body%d nil :n))" % (t, t))
+                A("(ev/spawn (sim/ev :spawn %d) (let [a (mk %d %d)] (sim/ev :targ-sent %d (show a)) (ev/thread body%d a :n)))" % (t, th.get("arg", 0), 8000 + t, t, t))
             else:
-                A("(ev/spawn (sim/ev :spawn %d) (ev/thread body%d %d :nt sup))" % (t, t, t))
+                # (with :t the value is also the task id that names the thread in supervisor events)
+                A("(ev/spawn (sim/ev :spawn %d) (sim/ev :targ-sent %d (show %d)) (ev/thread body%d %d :nt sup))" % (t, t, t, t, t))
         # after everything has settled (simulated time only advances when every thread is blocked) the
         # main thread marks quiescence and drains what is still queued, so that "still in the channel" is observable
         A("(ev/spawn (ev/sleep 1) (sim/ev :quiescent)")
@@ -216,7 +231,7 @@ class C08(Driver):
         A("  (sim/ev :drained))")
         nsup = sum(1 for th in plan["threads"] if th["mode"] == "sup")
         if nsup:
-            A("(ev/spawn (repeat %d (let [m (ev/take sup)] (sim/ev :sup (m 0) (get m 1) (get m 2)))))" % nsup)
+            A("(ev/spawn (repeat %d (let [m (ev/take sup)] (sim/ev :sup (get m 2) (m 0) (show (get m 1))))))" % nsup)
         return make_request(plan["knobs"], "\n".join(L))
 
     # ---------------- oracle ----------------
@@ -291,6 +306,7 @@ class C08(Driver):
         sent, got = {}, {}
         inv, ret = {}, {}
         tstart, tend, joined, spawned, supev = {}, {}, {}, {}, []
+        tvals = {}
         closed_at = {}
         crit = []
         q_seq = None
@@ -318,8 +334,11 @@ class C08(Driver):
             elif k == "tend":
                 tend[int(p)] = e.seq
             elif k == "joined":
-                toks = p.split(" ")
+                toks = p.split(" ", 2)
                 joined[int(toks[0])] = (e.seq, toks[1:])
+            elif k in ("targ-sent", "targ-got", "tret-sent"):
+                t_, shape_ = p.split(" ", 1)
+                tvals.setdefault(int(t_), {})[k] = shape_
             elif k == "spawn":
                 spawned[int(p)] = e.seq
             elif k == "sup":
@@ -378,6 +397,7 @@ class C08(Driver):
                     V("C08/stale-thread-chan-entry/message-forwarded-late-out-of-order", "sender %d channel %d receiver %d: %r" % (key[0], key[1], key[2], mids))
                 else:
                     V("C08/order/per-sender-order-violated", "sender %d channel %d receiver %d: %r" % (key[0], key[1], key[2], mids))
+        tdesc = {th["id"]: th for th in plan["threads"]}
         # ---- ev/thread resumes its caller only after the thread body has finished ----
         for t, (seq, toks) in joined.items():
             if t not in tend or tend[t] > seq:
@@ -385,15 +405,29 @@ class C08(Driver):
                     V("C08/join/ev-thread-returned-before-the-thread-body-finished", "thread %d" % t)
             elif toks[0] != "true":
                 V("C08/join/ev-thread-raised-although-the-body-finished", "thread %d: %s" % (t, " ".join(toks)))
+            elif len(toks) > 1 and toks[1] != '"nil"':
+                # documented: ev/thread returns nil; what the body returned or raised goes to the supervisor channel
+                V("C08/join/ev-thread-returned-a-value", "thread %d: %s" % (t, " ".join(toks)[:100]))
+        for t, d_ in tvals.items():
+            if "targ-sent" in d_ and "targ-got" in d_ and d_["targ-sent"] != d_["targ-got"]:
+                V("C08/equality/value-handed-to-ev-thread-differs-in-the-thread", "thread %d: sent %s got %s" % (t, d_["targ-sent"][:80], d_["targ-got"][:80]))
         # ---- supervisor: exactly one completion event per supervised thread that finished ----
         sup_threads = [th["id"] for th in plan["threads"] if th["mode"] == "sup"]
         seen_sup = {}
+        # a supervisor event is [status value task-id]: what the body returned (:ok) or raised (:error)
         for seq, p in supev:
-            toks = p.split(" ")
-            tid = toks[-1]
+            toks = p.split(" ", 2)
+            tid = toks[0]
             seen_sup[tid] = seen_sup.get(tid, 0) + 1
-            if toks[0] != ":ok" or toks[1] != str(7000 + int(tid) if tid.isdigit() else -1):
-                V("C08/supervisor/unexpected-event", p)
+            d_ = tdesc.get(int(tid)) if tid.isdigit() else None
+            if d_ is None or d_["mode"] != "sup":
+                V("C08/supervisor/unexpected-event", p[:160])
+            elif d_.get("raises"):
+                if toks[1] != ":error" or ("raised-by-%s" % tid) not in toks[2]:
+                    V("C08/supervisor/event-differs-from-what-the-body-raised", p[:160])
+            elif toks[1] != ":ok" or (int(tid) in tvals and "tret-sent" in tvals[int(tid)] and toks[2] != tvals[int(tid)]["tret-sent"]):
+                V("C08/supervisor/event-differs-from-what-the-body-returned",
+                  "%s (body returned %s)" % (p[:120], tvals.get(int(tid), {}).get("tret-sent", "?")[:80]))
         for t in sup_threads:
             n = seen_sup.get(str(t), 0)
             if n > 1:
